@@ -1046,6 +1046,10 @@ EXTRACTORS["C14"] = EXTRACTORS.get("C14", []) + [GEN_SRC[n] for n in ("SrcHmmVit
 TRANSLATOR_MODULES.append("rs2lean_genavl")
 GEN_SRC.update({n: gen_src(n) for n in ("SrcAvl",)})
 EXTRACTORS["C07"] = EXTRACTORS["C07"] + [GEN_SRC["SrcAvl"]]
+# genpoa: partial-order alignment (C16) — dialect "poa" of tools/rs2lean_genpoa.py; Thm/C16.lean imports RbV.Thm.GenSrcPoa*
+TRANSLATOR_MODULES.append("rs2lean_genpoa")
+GEN_SRC.update({n: gen_src(n) for n in ("SrcPoaAlign", "SrcPoaAdd", "SrcPoaConsensus")})
+EXTRACTORS["C16"] = EXTRACTORS.get("C16", []) + [GEN_SRC[n] for n in ("SrcPoaAlign", "SrcPoaAdd", "SrcPoaConsensus")]
 
 
 def main():
